@@ -220,7 +220,6 @@ def run_script(argv, timeout):
 def source_digest(functions):
     """functions: dotted names under the rsocket / reactivestreams packages; returns {name: sha1 of current source}"""
     code = ('import sys, json, hashlib, inspect, importlib\n'
-            'sys.modules["cbitstruct"]=None\n'
             'out={}\n'
             'for name in json.loads(sys.argv[1]):\n'
             '    parts=name.split(".")\n'
